@@ -178,6 +178,12 @@ impl Vm {
         if self.fiber == self.main_fiber {
           Some(ExecutionSignal::Exit)
         } else {
+          // this fiber will not touch its channels again so wake every
+          // fiber that was waiting for it on one of them
+          while let Some(waiter) = self.fiber.get_runnable() {
+            self.queue_blocked_fiber(waiter);
+          }
+
           // attempt to grab waiter and enqueue next fiber
           if let Some(waiter) = self.fiber.complete() {
             self.queue_blocked_fiber(waiter);
@@ -195,8 +201,16 @@ impl Vm {
   pub(super) fn queue_blocked_fiber(&mut self, mut waiter: Ref<ChannelWaiter>) {
     match waiter.get_waiter_mut::<Ref<Fiber>>() {
       Some(fiber) => {
+        let mut fiber = *fiber;
+
+        // a waiter may be stale or found through several channels
+        // only queue fibers that are actually parked and not yet queued
+        if fiber.is_complete() || fiber.is_running() || self.fiber_queue.contains(&fiber) {
+          return;
+        }
+
         fiber.unblock();
-        self.fiber_queue.push_back(*fiber)
+        self.fiber_queue.push_back(fiber)
       },
       None => self.internal_error("Unable to find fiber"),
     }
